@@ -219,6 +219,7 @@ func (b *regBackend) close() {
 // ---- one history
 
 type regRun struct {
+	stuck bool // a writer call never returned
 	c        *Ctx
 	u        *regUniverse
 	backends []*regBackend
@@ -322,7 +323,12 @@ func (r *regRun) doOp(kind string, arg int, arg2 int) {
 	defer cancel()
 	var res, op string
 	var pn interface{}
-	func() {
+	if r.stuck {
+		return // an earlier writer call of this history never returned: nothing more can be called
+	}
+	returned := make(chan struct{})
+	go func() {
+		defer close(returned)
 		defer func() {
 			if p := recover(); p != nil {
 				pn = p
@@ -398,6 +404,13 @@ func (r *regRun) doOp(kind string, arg int, arg2 int) {
 			}
 		}
 	}()
+	select {
+	case <-returned:
+	case <-time.After(8 * time.Second):
+		r.stuck = true
+		r.c.SpecFail("registry", r.hist+" | "+kind+" "+strconv.Itoa(arg+1), "the call has not returned after 8 s", "a return value", "C11/writer-call-never-returns", "a registration / removal call blocks forever (a lock left held by an earlier call)")
+		return
+	}
 	r.hist += " | " + op
 	if pn != nil {
 		r.c.SpecFail("registry", r.hist, fmt.Sprint("panic: ", pn), "a return value", "C11/registration-panic", "a registration call panics")
@@ -587,6 +600,14 @@ func runC11(c *Ctx) {
 			scen = [][3]interface{}{{"C", 0, 3}, {"C", 0, 2}, {"C", 0, 10}, {"D", 0, 0}}
 		case 5: // drop then register again
 			scen = [][3]interface{}{{"C", 0, 9}, {"D", 0, 0}, {"C", 0, 9}, {"C", 1, 8}, {"D", 0, 0}}
+		case 6: // twins: drop one, register it again, drop the other — the first must serve
+			scen = [][3]interface{}{{"C", 0, 3}, {"C", 1, 3}, {"D", 0, 0}, {"C", 0, 3}, {"D", 1, 0}, {"D", 0, 0}}
+		case 7: // register, drop, register again (same conn, another conn, a local service): every route comes back
+			scen = [][3]interface{}{{"C", 0, 27}, {"D", 0, 0}, {"C", 0, 27}, {"D", 0, 0}, {"C", 1, 27}, {"D", 1, 0}, {"S", 0, 0}, {"S", 1, 0}}
+		case 8: // three twins dropped in registration order and in reverse
+			scen = [][3]interface{}{{"C", 0, 9}, {"C", 1, 9}, {"C", 2, 9}, {"D", 0, 0}, {"D", 1, 0}, {"C", 0, 9}, {"D", 2, 0}, {"D", 0, 0}}
+		case 9: // a local service next to a twin connection
+			scen = [][3]interface{}{{"S", 0, 0}, {"C", 0, 1}, {"D", 0, 0}, {"C", 0, 1}, {"C", 1, 1}, {"D", 0, 0}, {"D", 1, 0}}
 		}
 		for i := 0; i < n || i < len(scen); i++ {
 			if i < len(scen) {
@@ -616,6 +637,9 @@ func runC11(c *Ctx) {
 				default:
 					r.doOp("D", 8, 0)
 				}
+			}
+			if r.stuck {
+				break
 			}
 			c.Class("op:" + r.ops[len(r.ops)-1][:1] + ":" + strings.SplitN(r.impl[len(r.impl)-1], "#", 2)[0])
 			r.probe(c.N(2, 3))
